@@ -13,6 +13,8 @@ answer: `<dom> <outcomes> <left> <out> <conserved> <outIsWritten>`; outcomes = c
 `delivered ++ left = ib ++ sent` (the spec, evaluated on the model's run), `outIsWritten` = the bytes
 handed to the peer are the successful writes in order.
 
+`c16 wrap <kind> <n> <data> <err>`: the Read wrapper of that kind on one raw result.
+
 `c16 lock <force> <schedule>`: schedule = string of `r`/`c` moves from the blocked-read state;
 answer `<reader pc> <closer pc> <closed>`.
 -/
@@ -102,6 +104,16 @@ def handleC16 : List String → String
       let outOk := r.1.out == writtenFrom false evs
       s!"{b2s dom} {outs} {c16Hex r.1.left} {c16Hex r.1.out} {b2s conserved} {b2s outOk}"
     | _, _, _ => "bad-op"
+  | ["wrap", kd, n, d, e] =>
+    -- the Read wrapper alone, on a raw result (data, error); answer `d<hex>:<e>`
+    let err : Option (Option RErr) :=
+      if e == "n" then some none else if e == "eof" then some (some .eof)
+      else if e == "other" then some (some .other) else if e == "closed" then some (some .closed) else none
+    match c16Kind kd, n.toNat?, c16Unhex d 0, err with
+    | some kd, some n, some d, some err =>
+      let r := if kd == Kind.telnet then telWrap n d err else sysWrap n d err
+      s!"d{c16Hex r.1}:{c16Err r.2}"
+    | _, _, _, _ => "bad-op"
   | ["lock", force, sched] =>
     let moves := sched.toList.filterMap fun c => if c == 'r' then some true else if c == 'c' then some false else none
     let s := runSched (s2b force) blockedRead moves
